@@ -646,7 +646,7 @@ pub fn run(tier: Tier, seed: u64) -> i32 {
             let dtm = crate::oracle::dtm::dtm();
             let mut made = 0;
             let mut tries = 0;
-            let want = std::env::var("VERIF_C11_THREE_MAN").ok().and_then(|v| v.parse().ok()).unwrap_or(tier.pick(2usize, 12));
+            let want = std::env::var("VERIF_C11_THREE_MAN").ok().and_then(|v| v.parse().ok()).unwrap_or(tier.pick(2usize, 5));
             while made < want && tries < 4000 {
                 tries += 1;
                 let kind = *rng.pick(&[Kind::Queen, Kind::Queen, Kind::Rook, Kind::Rook, Kind::Pawn]);
